@@ -73,6 +73,7 @@ type pathState struct {
 	hstates    map[*Value]*hashState
 	proveMemo  map[int]bool
 	pemLen     int
+	tableArr   map[*bnode]*Term
 	certRawLen int
 	parsedTimes map[int]parsedTime
 	signs      []signEvent
